@@ -6,9 +6,9 @@ for patch in "$@"; do
   git -C /repo worktree add --detach -q $wt HEAD || exit 2
   if ! git -C $wt apply "$(realpath $patch)"; then echo "$patch: DOES NOT APPLY"; git -C /repo worktree remove --force $wt; continue; fi
   b=/var/tmp/verif-wbuild-$$
-  if ! make -s -j16 VERIF_REPO=$wt BUILD=$b FWBUILD=/verif/build $b/props/C01win $b/props/C02win $b/props/C04w2 $b/props/C05win $b/props/C06win $b/props/C10win $b/props/C11win >/dev/null 2>$b.err; then echo "$patch: BUILD FAILED"; tail -3 $b.err; fi
+  if ! make -s -j16 VERIF_REPO=$wt BUILD=$b FWBUILD=/verif/build $b/props/C01win $b/props/C02win $b/props/C03win $b/props/C09win $b/props/C17win $b/props/C04w2 $b/props/C05win $b/props/C06win $b/props/C10win $b/props/C11win >/dev/null 2>$b.err; then echo "$patch: BUILD FAILED"; tail -3 $b.err; fi
   line="$(basename $patch .diff):"
-  for p in C01win C02win C04w2 C05win C06win C10win C11win; do
+  for p in C01win C02win C03win C04w2 C05win C06win C09win C10win C11win C17win; do
     sig=""
     for mode in "--sweep 0/1" "--random 5000"; do
       $b/props/$p $mode --seed 1 --tier quick --out $b/$p.json >/dev/null 2>&1
